@@ -1,5 +1,6 @@
 import Pi2.Sound.Inst
 import Pi2.NotationThm
+import Pi2.RustTie
 /-!
 # C06 — freshness and positivity judgements are sound for every instantiation
 
@@ -85,5 +86,27 @@ judged fresh, and an instance the checker accepts. -/
 example : (esub (mv 0 [1] [] [] [] []) 0 (evar 2)).eFresh 1 = true := by decide
 example : inst (fun k => if k = 0 then some (ex 1 (evar 0)) else none) (esub (mv 0 [1] [] [] [] []) 0 (evar 2))
     = some (ex 1 (evar 2)) := by decide
+
+/-! ## the judgements of the Rust source, translated on every run (`Pi2/Gen/RustJudge.lean`), are the model's:
+hence the soundness statements above hold of the functions as they are written in `rust/src/lib.rs` -/
+
+theorem rust_judgements_are_the_model :
+    Gen.Rust.translated = true ∧
+    (∀ p e, Gen.Rust.e_fresh p e = p.eFresh e) ∧ (∀ p s, Gen.Rust.s_fresh p s = p.sFresh s) ∧
+    (∀ p s, Gen.Rust.positive p s = p.pos s) ∧ (∀ p s, Gen.Rust.negative p s = p.ng s) :=
+  ⟨RustTie.translated, RustTie.e_fresh_eq, RustTie.s_fresh_eq, RustTie.positive_eq, RustTie.negative_eq⟩
+
+/-- the translated Rust `e_fresh`: judged fresh ⇒ the denotation is independent of the variable -/
+theorem rust_e_fresh_sound (𝔐 : Model) (σ : MVKey → Sem 𝔐.M) (hσ : Admissible σ) (e : VId) (p : Pat)
+    (h : Gen.Rust.e_fresh p e = true) (ρ ρ' : Val 𝔐.M) (hag : Val.agreeOffE e ρ ρ') : eval 𝔐 σ p ρ = eval 𝔐 σ p ρ' :=
+  eFresh_sound 𝔐 σ hσ e p (by rw [← RustTie.e_fresh_eq]; exact h) ρ ρ' hag
+
+/-- the translated Rust `positive` / `negative`: monotone / antitone -/
+theorem rust_polarity_sound (𝔐 : Model) (σ : MVKey → Sem 𝔐.M) (hE : Admissible σ)
+    (hS : AdmissibleS σ) (hPN : AdmissiblePN σ) (p : Pat) (X : VId) :
+    (Gen.Rust.positive p X = true → ∀ ρ ρ', Val.leS X ρ ρ' → ∀ m, eval 𝔐 σ p ρ m → eval 𝔐 σ p ρ' m) ∧
+    (Gen.Rust.negative p X = true → ∀ ρ ρ', Val.leS X ρ ρ' → ∀ m, eval 𝔐 σ p ρ' m → eval 𝔐 σ p ρ m) := by
+  rw [RustTie.positive_eq, RustTie.negative_eq]
+  exact pos_neg_sound 𝔐 σ hE hS hPN p X
 
 end C06
